@@ -146,6 +146,9 @@ def main():
     txt("upd_expiry_rule", re.sub(r"\s+", "", m.group(1)) if m else None)
     hi = fn_body(canonical, "hop_count_increase") or ""
     txt("upd_hop_increment", "saturating_add(1)" if "hc_count.saturating_add(1)" in re.sub(r"\s+", "", hi) else None)
+    # ---- C15: fragment fields without a size hint
+    m = re.search(r"let has_fragment_fields = match seq\.size_hint\(\) \{(.*?)\};", primary, flags=re.S)
+    txt("primary_frag_rule", re.sub(r"\s+", "", m.group(1)) if m else None)
     # ---- emit
     lines = ["/- GENERATED by tools/extract.py from /repo/src — do not edit. -/", "namespace Bp7.Extracted", ""]
     for name, kind, v in facts:
